@@ -59,6 +59,22 @@ theorem C17_rejected_is_noop (m : Method) (hm : m ∈ table) (s : State) (a : Ar
     (hres : (run cr m s a).2 = .fault f) (hrej : f.isRejection = true) : (run cr m s a).1 = s :=
   noop_of_guards cr m.steps [] s a (C17_checks_before_effects m hm) (by simp) f hres hrej
 
+/-- every state check of every method allows exactly the documented set, and nothing but a condition on the Supvisors
+    state / modes raises BAD_SUPVISORS_STATE -/
+theorem C17_all_gates : ∀ m ∈ table, gatesMatch (docOf m.name) m = true := by decide
+
+/-- inside its documented states (FINAL left open for the "from DISTRIBUTION on" family), with the documented further
+    conditions on the modes satisfied (`end_sync`: no Master yet and USER option; `restart_sequence`: no job in
+    progress), a call is never answered BAD_SUPVISORS_STATE, whatever the parameters: it is served or rejected on
+    its parameters -/
+theorem C17_served_in_documented_states (m : Method) (hm : m ∈ table) (d : Doc) (hd : docOf m.name = some d) (s : State)
+    (a : Args) (hin : d.family.allowed.contains s.fsm = true) (hfinal : d.family.finalOpen = true → s.fsm ≠ .final)
+    (hmodes : (∀ c f, Step.raise c f ∈ m.steps → c.isStateLike = true → c.isState = false → checkPasses s a c f = true)) :
+    (run cr m s a).2 ≠ .fault .badSupvisorsState := by
+  have h := C17_all_gates m hm
+  rw [hd] at h
+  exact not_state_rejected cr d a s.fsm hin hfinal m.steps s rfl h hmodes
+
 /-- `end_sync` without the USER option: rejected by one of the two documented faults, no-op -/
 theorem C17_end_sync_needs_user (m : Method) (hm : m ∈ table) (d : Doc) (hd : docOf m.name = some d)
     (hu : d.extra.contains .userOption = true) (s : State) (a : Args) (huser : s.userOpt = false) :
